@@ -32,6 +32,9 @@ __all__ = ['Engine', 'ConcreteEngine', 'SymNum', 'SymBool', 'PathAbort', 'symflo
            'is_sym', 'current', 'zval']
 
 
+INCREMENTAL_MS = 4000
+
+
 class PathAbort(BaseException):
     """Raised to abandon a path (infeasible assumption, budget).  BaseException so
     that `except Exception` in the code under analysis cannot swallow it."""
@@ -387,6 +390,11 @@ class Engine:
         s.push()
         for e in extra:
             s.add(e)
+        # the incremental core is only given a short time: where it does not answer quickly (division by symbolic
+        # values, uninterpreted functions) the non-incremental retry of the callers decides in milliseconds, while
+        # waiting out the full budget here costs qtimeout per query
+        if timeout is None and self.qtimeout > INCREMENTAL_MS:
+            timeout = INCREMENTAL_MS
         lim = (timeout or self.qtimeout) / 1000.0
         if timeout:
             s.set('timeout', timeout)
@@ -411,11 +419,18 @@ class Engine:
         self.stats['solver_s'] += time.time() - t
         return str(r), m
 
+    def _check0(self):
+        """satisfiability of the path condition alone, with the non-incremental retry"""
+        r, m = self._check()
+        if r == 'unknown':
+            r, m = self._fresh_check([], max(self.qtimeout, 20000))
+        return r, m
+
     def _check2(self, cond):
         """incremental check; an `unknown` is retried once non-incrementally (lets z3 pick nlsat)"""
         r, m = self._check(cond)
         if r == 'unknown':
-            r, m = self._fresh_check([cond], max(self.qtimeout * 2, 20000))
+            r, m = self._fresh_check([cond], max(self.qtimeout, 20000))
         return r, m
 
     def _fresh_check(self, extra, timeout):
@@ -439,6 +454,43 @@ class Engine:
         self.stats['queries'] += 1
         self.stats['solver_s'] += time.time() - t
         return str(r), m
+
+    def _abstract_unsat(self, neg, timeout):
+        """Last resort for an `unknown` obligation: every application of an uninterpreted function is replaced by
+        a fresh real constant (the same term by the same constant) and the query is decided as pure nonlinear real
+        arithmetic.  Dropping the congruence axioms only WEAKENS the assumptions, so `unsat` of the abstraction
+        implies `unsat` of the original; any other answer is discarded."""
+        t = time.time()
+        exprs = list(self.pc) + [neg]
+        apps, seen, todo = [], set(), list(exprs)
+        while todo:
+            e = todo.pop()
+            if e.get_id() in seen:
+                continue
+            seen.add(e.get_id())
+            if z3.is_app(e) and e.num_args() > 0 and e.decl().kind() == z3.Z3_OP_UNINTERPRETED:
+                apps.append(e)
+            todo.extend(e.children())
+        if not apps:
+            return False
+        # outer applications first, so that a nested application disappears together with the term around it
+        apps.sort(key=lambda a: -len(a.sexpr()))
+        sub = [(a, z3.Real(f'__uf{k}')) for k, a in enumerate(apps)]
+        s = z3.Solver()
+        s.set('timeout', timeout)
+        for e in exprs:
+            s.add(z3.substitute(e, *sub))
+        timer = threading.Timer(timeout / 1000.0 + 2.0, z3.main_ctx().interrupt)
+        timer.start()
+        try:
+            r = s.check()
+        except z3.Z3Exception:
+            r = z3.unknown
+        finally:
+            timer.cancel()
+        self.stats['queries'] += 1
+        self.stats['solver_s'] += time.time() - t
+        return r == z3.unsat
 
     def _model_says(self, cond):
         if self.model is None:
@@ -584,7 +636,7 @@ class Engine:
         self._add(cond)
         if self._model_says(cond) is True:
             return
-        r, m = self._check()
+        r, m = self._check0()
         if r == 'unsat':
             raise PathAbort('assume infeasible')
         if r == 'unknown':
@@ -634,6 +686,9 @@ class Engine:
         r, m = self._check(neg)
         if r == 'unknown':
             r, m = self._fresh_check([neg], max(self.qtimeout * 3, 30000))
+        if r == 'unknown' and self._abstract_unsat(neg, max(self.qtimeout * 3, 30000)):
+            ob['abstracted'] = True
+            r = 'unsat'
         if r == 'unsat':
             ob['status'] = 'ok'
             return True
@@ -668,7 +723,7 @@ class Engine:
         if self.model is not None:
             ok = True
             return self.model
-        r, m = self._check()
+        r, m = self._check0()
         if r == 'sat':
             self.model = m
         return m
